@@ -179,6 +179,14 @@ def obs_pipeline(prop, tier, seed, work, t0, flavor="sync"):
     k, _ = gen_behaviours("GenObs", c, work, beh, "tree", tag="tree", workers=12, timeout=1500)
     n += k
     log("gen tree: %d" % k)
+    if prop in ("C01", "C02"):
+        # complete tree over the wake / readiness core (all paths: clone vs subscribe, reset, re-poll ...)
+        c = os.path.join(work, "GenWake.cfg")
+        write_cfg(c, spec="SpecWake", constants=dict(OBS_MC, NV=2, Depth=5 if quick else 6, Kinds={"shared"} if seed % 2 else {"unique"}),
+                  constraints=["BoundTree"], invariants=["PrintAtDepth"])
+        k, _ = gen_behaviours("GenObs", c, work, beh, "tree", tag="wake", workers=12, timeout=1500)
+        n += k
+        log("gen wake tree: %d" % k)
     c = os.path.join(work, "GenSim.cfg")
     write_cfg(c, spec=spec, constants=dict(NV=3, OwnerIds={1, 2, 3}, SubIds={1, 2, 3, 4}, WeakIds={1, 2},
                                            GuardIds={1, 2}, Kinds={"unique", "shared"}, Depth=40),
@@ -1188,6 +1196,12 @@ def async_pipeline(prop, tier, seed, work, t0):
     k, _ = gen_behaviours("GenObs", c, work, beh, "edge", tag="edge")
     n += k
     log("gen sync-spec edge: %d" % k)
+    c = os.path.join(work, "GenWake.cfg")
+    write_cfg(c, spec="SpecWake", constants=dict(OBS_MC, NV=2, Depth=5 if quick else 6, Kinds={"shared"} if seed % 2 else {"unique"}),
+              constraints=["BoundTree"], invariants=["PrintAtDepth"])
+    k, _ = gen_behaviours("GenObs", c, work, beh, "tree", tag="wake", workers=12, timeout=1500)
+    n += k
+    log("gen sync-spec wake tree: %d" % k)
     c = os.path.join(work, "GenSim.cfg")
     write_cfg(c, spec="Spec", constants=dict(NV=3, OwnerIds={1, 2, 3}, SubIds={1, 2, 3, 4}, WeakIds={1, 2},
                                             GuardIds={1, 2}, Kinds={"unique", "shared"}, Depth=40),
